@@ -322,6 +322,13 @@ func genStatValue(t *rapid.T, center float64, constant bool) float64 {
 	if vcase.OneIn(t, 30, "zero") {
 		return 0
 	}
+	if vcase.OneIn(t, 30, "negative") {
+		// differences and custom metrics can be negative
+		return -center * (1 + float64(rapid.IntRange(-8, 8).Draw(t, "nnoise"))/100)
+	}
+	if vcase.OneIn(t, 40, "tiny") {
+		return center / 1e6
+	}
 	switch rapid.IntRange(0, 9).Draw(t, "vk") {
 	case 0:
 		return center
